@@ -58,6 +58,8 @@ def gen_history(seed, tier="quick", zoo_filter=None, faults_on=True):
         # interpolate (fails inside openmdao, in live and reference alike) - not an admissible model
         spec["ny"] = rng.choice([5, 7])
         spec["nx"] = rng.choice([2, 2, 3])
+    if spec["zoo"] in ("Z1", "Z2", "Z3", "Z4", "Z8", "Z9", "Z10", "Z11", "Z12", "Z13", "Z15") and rng.random() < 0.3:
+        spec["surf_opts"] = dict(rng.choice(zoo.SURF_OPT_CHOICES))
     use_driver = spec["zoo"] in ("Z1", "Z6", "Z8") and rng.random() < 0.25
     if use_driver:
         spec["driver"] = True
